@@ -25,6 +25,9 @@ ILog10(x) == IF x < 10 THEN 0 ELSE 1 + ILog10(x \div 10)          \* x > 0
 Abs(x) == IF x < 0 THEN -x ELSE x
 Min(a, b) == IF a < b THEN a ELSE b
 
+(* x \div 10^k for x < 10^10 (every integer TLC can hold) without evaluating an overflowing power *)
+DivPow10(x, k) == IF k > 9 THEN 0 ELSE x \div Pow10(k)
+
 TargetScale == ILog10(MaxRepr) - 1                                 \* TARGET_SCALE
 
 Dec(neg, m, s) == [neg |-> neg, m |-> m, s |-> s]
@@ -53,7 +56,7 @@ SignedFixedToDec(n, d) ==
 UnsignedAmountToDec(x, d) ==
   LET r == IF d > MaxScale
            THEN IF d - MaxScale > AmtScale THEN Some(Zero)
-                ELSE UnsignedFixedToDec(x \div Pow10(d - MaxScale), MaxScale)
+                ELSE UnsignedFixedToDec(DivPow10(x, d - MaxScale), MaxScale)
            ELSE UnsignedFixedToDec(x, d) IN
   IF r.st = "none" THEN Panic ELSE r
 SignedAmountToDec(n, d) ==
@@ -75,8 +78,8 @@ Rescale(dec, t) ==
   ELSE IF dec.s > t THEN Dec(dec.neg, Down(dec.m, dec.s - t, 0), t)
   ELSE LET u == Up(dec.m, dec.s, t) IN Dec(dec.neg, u.m, u.s)
 
-Ok(v) == [ok |-> TRUE, v |-> v]
-Err   == [ok |-> FALSE, v |-> 0]
+Ok(v) == [ok |-> TRUE, v |-> v, panic |-> FALSE]
+Err   == [ok |-> FALSE, v |-> 0, panic |-> FALSE]
 (* 10i128.checked_pow(k).and_then(|p| mantissa.checked_mul(p)) *)
 MulPow10(M, k) ==
   IF k > PowMax THEN Err
@@ -85,14 +88,21 @@ MulPow10(M, k) ==
   ELSE IF Abs(M) > MaxI \div Pow10(k) THEN Err
   ELSE Ok(M * Pow10(k))
 
+(* The error messages of rescale_to_mantissa format the rescaled Decimal.  Decimal::rescale can leave
+   a scale above MaxScale behind (it multiplies while the mantissa fits, without looking at the scale),
+   and Display of such a value overflows rust_decimal's fixed string buffer ("0." + scale digits + sign
+   > 32 characters in the real world): the error path panics instead of returning Err. *)
+FormatPanics(dec) == dec.s + (IF dec.neg THEN 1 ELSE 0) > MaxScale + 2
+
 (* rescale_to_mantissa(value, decimals) = decimal_to_signed_value *)
 DecToSigned(dec, t) ==
   LET r == Rescale(dec, t)
       M == IF r.neg THEN -r.m ELSE r.m IN
-  IF r.s < t THEN MulPow10(M, t - r.s)
+  IF r.s < t THEN LET p == MulPow10(M, t - r.s) IN
+                  IF p.ok THEN p ELSE [p EXCEPT !.panic = FormatPanics(r)]
   ELSE IF r.s = t THEN Ok(M)
   ELSE Err
 (* decimal_to_value: i128 -> u128 ; decimal_to_amount: i128 -> u64 *)
-DecToValue(dec, t)  == LET r == DecToSigned(dec, t) IN IF r.ok /\ r.v >= 0 THEN r ELSE Err
-DecToAmount(dec, t) == LET r == DecToSigned(dec, t) IN IF r.ok /\ r.v >= 0 /\ r.v <= AmtMax THEN r ELSE Err
+DecToValue(dec, t)  == LET r == DecToSigned(dec, t) IN IF ~r.ok \/ r.v >= 0 THEN r ELSE Err
+DecToAmount(dec, t) == LET r == DecToSigned(dec, t) IN IF ~r.ok \/ (r.v >= 0 /\ r.v <= AmtMax) THEN r ELSE Err
 =============================================================================
